@@ -130,7 +130,12 @@ struct Diff {
     template <class E> void enm(const std::string& key, E a, E b) { exact(key, (long)a, (long)b); }
     void str(const std::string& key, const std::string& a, const std::string& b) { ++ncmp; if (a != b) add(key, "original '" + a + "' restarted '" + b + "'"); }
     // UDA: same kind (number / UDQ name); numbers equal to single precision in SI, names equal
-    void uda(const std::string& key, const UDAValue& a, const UDAValue& b, bool nameOnly = false) {
+    bool uda(const std::string& key, const UDAValue& a, const UDAValue& b, bool nameOnly = false) {
+        const size_t before = items.size();
+        udaImpl(key, a, b, nameOnly);
+        return items.size() > before;
+    }
+    void udaImpl(const std::string& key, const UDAValue& a, const UDAValue& b, bool nameOnly) {
         ++ncmp;
         // WELTARG with a number on an item that held a UDQ name leaves both in the UDAValue (update_value does not clear the name):
         // the original run evaluates the number, the file records the UDQ as active and the restarted run evaluates the UDQ.
@@ -143,7 +148,12 @@ struct Diff {
         // controls, which are compared separately.
         const bool na = a.is<double>(), nb = b.is<double>();
         if (na != nb) { ++udaDefinednessDiffers; return; }
-        if (na && !nameOnly) { double x = a.getSI(), y = b.getSI(); if (!eqF(x, y)) add(key + usfx, "original " + num(x) + " restarted " + num(y) + " (SI)"); }
+        if (na && !nameOnly) {
+            double x = a.getSI(), y = b.getSI();
+            // same number in the item but another SI value: the two items carry different dimensions (e.g. WELTARG keeps the METRIC
+            // dimension of a defaulted WCONPROD item in a FIELD deck while the restarted well uses the deck's units)
+            if (!eqF(x, y)) add(key + (eqF(a.get<double>(), b.get<double>()) ? ".dimension" : "") + usfx, "original " + num(x) + " restarted " + num(y) + " (SI); raw numbers " + num(a.get<double>()) + " and " + num(b.get<double>()));
+        }
     }
 };
 
@@ -156,14 +166,22 @@ static const char* USYS[] = {"METRIC", "FIELD", "LAB", "PVT-M"};
 // segments, group tree, controls/limits/targets, efficiency factors, well lists, UDQ, ACTIONX, network.  Keywords whose
 // effect is outside the compared field list stay (harmless context).  A keyword instance for which this function returns a
 // reason is removed from the generated schedule: the unchanged tree cannot carry it through a restart file, see C05.py.
+static bool g_allKeywords = false;   // harness development: let keyword kinds through that have not been validated
 static std::string excludedKeyword(const gdeck::KwInst& kw) {
     // The shared generator grows; only the keyword kinds this check has been validated with on the unchanged tree stay in.
     static const std::set<std::string> validated = {
         "WELSPECS", "COMPDAT", "WCONPROD", "WCONINJE", "WCONHIST", "WCONINJH", "GRUPTREE", "WELSEGS", "COMPSEGS", "WELOPEN", "WELTARG",
         "WEFAC", "GEFAC", "GCONPROD", "GCONINJE", "WTEST", "WECON", "WLIST", "WPIMULT", "WTMULT", "TUNING", "NEXTSTEP", "RPTRST", "RPTSCHED",
         "UDQ", "ACTIONX", "GUIDERAT", "WGRUPCON", "LIFTOPT", "WLIFTOPT", "GLIFTOPT", "VFPPROD", "BRANPROP", "NETBALAN", "DRSDT", "WRFTPLT",
-        "WPAVE", "WWPAVE", "COMPLUMP", "COMPORD", "GCONSUMP", "GECON", "WINJMULT", "WHISTCTL"};
-    if (!validated.count(kw.name)) return "not-in-validated-set:" + kw.name;
+        "WPAVE", "WWPAVE", "COMPLUMP", "COMPORD", "GCONSUMP", "GECON", "WINJMULT", "WHISTCTL",
+        // second batch (generator extension), validated with 800 cases x 4 unit systems
+        "CSKIN", "WDFAC", "WDFACCOR", "WELPI", "WINJTEMP", "WTEMP", "WPAVEDEP", "WRFT", "WSEGITER", "WSEGSICD", "WSEGVALV", "WVFPDP", "WVFPEXP",
+        "VFPINJ", "NUPCOL", "MESSAGES", "SUMTHIN", "RPTONLY", "SAVE"};
+    // observed on the unchanged tree and left out (outside the statement's list; reported):
+    if (kw.name == "DRVDT" || kw.name == "DRSDTR" || kw.name == "VAPPARS") return "save-throws-without-DRSDT:" + kw.name;   // RestartIO::save: "Only valid if DRSDT is active"
+    if (kw.name == "GPMAINT" || kw.name == "GCONSALE") return "group-type-not-restored:" + kw.name;                     // injection group flag without GCONINJE is lost
+    if (kw.name == "FBHPDEF") return "FBHPDEF";                                                                          // default BHP limits are not stored (documented in Well.cpp)
+    if (!g_allKeywords && !validated.count(kw.name)) return "not-in-validated-set:" + kw.name;
     if (kw.name == "GCONPROD" && kw.text.find("'FLD'") != std::string::npos)
         return "GCONPROD-mode-FLD";      // IGRP encodes FLD as 0 (= NONE) with exceed action 4: comes back as NONE / RATE
     if (kw.name == "WHISTCTL")
@@ -421,14 +439,15 @@ static void cmpWell(const Well& a, const Well& b, const SchedCmpOpts& opt, Diff&
         const auto& q = b.getProductionProperties();
         for (const UDAValue* u : {&p.OilRate, &p.WaterRate, &p.GasRate, &p.LiquidRate, &p.ResVRate, &p.BHPTarget, &p.THPTarget}) if (u->is<std::string>()) d.feat["well:UDA in production control"]++;
         if (p.VFPTableNumber > 0) d.feat["well:VFP table"]++;
-        d.uda("well.prod.OilRate", p.OilRate, q.OilRate);
-        d.uda("well.prod.WaterRate", p.WaterRate, q.WaterRate);
-        d.uda("well.prod.GasRate", p.GasRate, q.GasRate);
-        d.uda("well.prod.LiquidRate", p.LiquidRate, q.LiquidRate);
-        d.uda("well.prod.ResVRate", p.ResVRate, q.ResVRate);
-        d.uda("well.prod.BHPTarget", p.BHPTarget, q.BHPTarget);
-        d.uda("well.prod.THPTarget", p.THPTarget, q.THPTarget);
-        d.uda("well.prod.ALQValue", p.ALQValue, q.ALQValue);
+        // (a limit whose stored item already differs is not reported a second time through the evaluated controls)
+        const bool rOil = d.uda("well.prod.OilRate", p.OilRate, q.OilRate);
+        const bool rWat = d.uda("well.prod.WaterRate", p.WaterRate, q.WaterRate);
+        const bool rGas = d.uda("well.prod.GasRate", p.GasRate, q.GasRate);
+        const bool rLiq = d.uda("well.prod.LiquidRate", p.LiquidRate, q.LiquidRate);
+        const bool rResv = d.uda("well.prod.ResVRate", p.ResVRate, q.ResVRate);
+        const bool rBhp = d.uda("well.prod.BHPTarget", p.BHPTarget, q.BHPTarget);
+        const bool rThp = d.uda("well.prod.THPTarget", p.THPTarget, q.THPTarget);
+        const bool rAlq = d.uda("well.prod.ALQValue", p.ALQValue, q.ALQValue);
         d.exact("well.prod.VFPTableNumber", p.VFPTableNumber, q.VFPTableNumber);
         d.exact("well.prod.predictionMode", p.predictionMode, q.predictionMode);
         if (!p.predictionMode) {
@@ -449,14 +468,14 @@ static void cmpWell(const Well& a, const Well& b, const SchedCmpOpts& opt, Diff&
                 // control has been dropped is not written); history wells: the observed rates always count
                 using PM = Well::ProducerCMode;
                 const bool hist = !ca.prediction_mode;
-                if (hist || ca.hasControl(PM::ORAT)) d.real("well.prodctl.oil_rate", ca.oil_rate, cb.oil_rate);
-                if (hist || ca.hasControl(PM::WRAT)) d.real("well.prodctl.water_rate", ca.water_rate, cb.water_rate);
-                if (hist || ca.hasControl(PM::GRAT)) d.real("well.prodctl.gas_rate", ca.gas_rate, cb.gas_rate);
-                if (ca.hasControl(PM::LRAT)) d.real("well.prodctl.liquid_rate", ca.liquid_rate, cb.liquid_rate);
-                if (!hist && ca.hasControl(PM::RESV)) d.real("well.prodctl.resv_rate", ca.resv_rate, cb.resv_rate);
-                d.real("well.prodctl.bhp_limit", ca.bhp_limit, cb.bhp_limit);
-                if (ca.hasControl(PM::THP)) d.real("well.prodctl.thp_limit", ca.thp_limit, cb.thp_limit);
-                d.real("well.prodctl.alq_value", ca.alq_value, cb.alq_value);
+                if (!rOil && (hist || ca.hasControl(PM::ORAT))) d.real("well.prodctl.oil_rate", ca.oil_rate, cb.oil_rate);
+                if (!rWat && (hist || ca.hasControl(PM::WRAT))) d.real("well.prodctl.water_rate", ca.water_rate, cb.water_rate);
+                if (!rGas && (hist || ca.hasControl(PM::GRAT))) d.real("well.prodctl.gas_rate", ca.gas_rate, cb.gas_rate);
+                if (!rLiq && ca.hasControl(PM::LRAT)) d.real("well.prodctl.liquid_rate", ca.liquid_rate, cb.liquid_rate);
+                if (!rResv && !hist && ca.hasControl(PM::RESV)) d.real("well.prodctl.resv_rate", ca.resv_rate, cb.resv_rate);
+                if (!rBhp) d.real("well.prodctl.bhp_limit", ca.bhp_limit, cb.bhp_limit);
+                if (!rThp && ca.hasControl(PM::THP)) d.real("well.prodctl.thp_limit", ca.thp_limit, cb.thp_limit);
+                if (!rAlq) d.real("well.prodctl.alq_value", ca.alq_value, cb.alq_value);
                 d.exact("well.prodctl.vfp_table", ca.vfp_table_number, cb.vfp_table_number);
             } catch (const std::exception& e) { d.add("well.prodctl.throws", e.what()); }
         }
@@ -744,26 +763,20 @@ static void cmpWlists(const Schedule& A, const Schedule& B, size_t k, Diff& d) {
     const auto& wb = B[k].wlist_manager();
     d.ctx = "WLIST";
     // EXCLUDED: well lists without wells (after WLIST ... DEL / MOV): IWLS / ZWLS store the lists per member well, an empty list
-    // leaves no trace in the file.  The non-empty lists are found through their members below.
-    // the lists each well belongs to and the content of each list
+    // leaves no trace in the file.
+    // The lists are found through the per-well index of both sides; what is compared is the content of each list (the per-well
+    // index of the original is not: WLIST DEL leaves the list name behind in it although the well is gone from the list).
     std::set<std::string> names;
     for (const auto& w : A.wellNames(k)) {
-        d.ctx = "WLIST of well " + w;
-        // which lists a well is a member of (a set: the order of this per-well index carries no meaning)
-        std::set<std::string> la, lb;
-        if (wa.hasWList(w)) for (const auto& l : wa.getWListNames(w)) { la.insert(l); names.insert(l); }
-        if (wb.hasWList(w)) for (const auto& l : wb.getWListNames(w)) lb.insert(l);
-        std::string sa, sb; for (auto& l : la) sa += l + " "; for (auto& l : lb) sb += l + " ";
-        d.str("wlist.of_well", sa, sb);
+        if (wa.hasWList(w)) for (const auto& l : wa.getWListNames(w)) names.insert(l);
+        if (B.hasWell(w, k) && wb.hasWList(w)) for (const auto& l : wb.getWListNames(w)) names.insert(l);
     }
     for (const auto& l : names) {
         d.ctx = "WLIST " + l;
-        d.exact("wlist.present", true, wb.hasList(l));
-        if (!wb.hasList(l)) continue;
         std::string sa, sb;
-        for (const auto& w : wa.getList(l).wells()) sa += w + " ";
-        for (const auto& w : wb.getList(l).wells()) sb += w + " ";
-        d.feat["wlist:non-empty list"]++;
+        if (wa.hasList(l)) for (const auto& w : wa.getList(l).wells()) sa += w + " ";
+        if (wb.hasList(l)) for (const auto& w : wb.getList(l).wells()) sb += w + " ";
+        if (!sa.empty()) d.feat["wlist:non-empty list"]++;
         d.str("wlist.wells", sa, sb);
     }
 }
@@ -855,6 +868,7 @@ int main(int argc, char** argv) {
     const double pOtherCtrl = args.getd("other_ctrl", 0.25);
     const double pApply = args.getd("apply", 0.5);
     const bool explore = args.geti("explore", 0) != 0;
+    g_allKeywords = args.geti("all_keywords", 0) != 0;
     const std::string skipKeys = args.get("skip", "");   // harness development only: comma separated key prefixes not reported
 
     auto report = [&](const std::string& key, const std::string& what, const std::string& witness) {
@@ -872,14 +886,18 @@ int main(int argc, char** argv) {
         gdeck::Opts o;
         o.geoModifiers = false;
         o.minSteps = 3; o.maxSteps = 6;
+        o.maxKwPerStep = 9;      // about half of the generator's keyword kinds are outside the validated set and are dropped below
         o.unitSystem = us < 3 ? us : 0;
         o.msw = rng.chance(0.6); o.udq = rng.chance(0.6); o.actions = rng.chance(0.6); o.network = rng.chance(0.5);
         gdeck::Generator gen(rng, o);
         gdeck::Model m = gen.generate();
         if (us == 3) {
             m.units = "PVT-M";
-            for (auto& st : m.steps) for (auto& kw : st.kws) if (kw.name == "VFPPROD") { size_t p = kw.text.find("'METRIC'"); if (p != std::string::npos) kw.text.replace(p, 8, "'PVT-M'"); }
+            // the VFP keywords accept METRIC / FIELD / LAB as units string only: default the item (= deck units)
+            for (auto& st : m.steps) for (auto& kw : st.kws) if (kw.name == "VFPPROD" || kw.name == "VFPINJ") { size_t p = kw.text.find("'METRIC'"); if (p != std::string::npos) kw.text.replace(p, 8, "1*"); }
         }
+        // VFPINJ refuses the units string 'LAB' ("Deck units are not equal VFPINJ table units") although VFPPROD accepts it: default it
+        for (auto& st : m.steps) for (auto& kw : st.kws) if (kw.name == "VFPINJ") { size_t p = kw.text.find("'LAB' 'BHP'"); if (p != std::string::npos) kw.text.replace(p, 5, "1*"); }
         if (m.actnum.empty() && rng.chance(0.8)) {   // the statement wants inactive cells
             m.actnum.assign((size_t)m.nx * m.ny * m.nz, 1);
             // only cells no well passes through may be switched off afterwards
@@ -1258,6 +1276,9 @@ int main(int argc, char** argv) {
                     // the restart date is taken from year / month / day of INTEHEAD only: a report step that is not at midnight cannot be
                     // found again in the schedule section
                     const bool timeOfDay = std::fmod(sched.seconds(n), 86400.0) != 0.0 && msg.find("SKIPREST") != std::string::npos;
+                    // documented exclusion (a UDA the keyword handlers leave as a placeholder is unset in the restarted well): WTMULT on a
+                    // limit that is not in the well's control set multiplies the placeholder in the original and is refused after restart
+                    if (msg.find("Problem with keyword WTMULT") != std::string::npos) { rep.count("restart_refused_wtmult_on_unset_limit"); continue; }
                     // documented exclusion (empty well lists leave no trace in the file): a later WLIST ADD to such a list is refused
                     if (msg.find("Invalid well list") != std::string::npos) {
                         bool emptyList = false;
